@@ -78,7 +78,15 @@ func NewMemoryCache[MetadataT any](cfg *config.Config, memoryBudgetPercent int, 
 			c.mu.RUnlock()
 
 			for key, entry := range snapshot {
-				if !yield(key, entry.meta) {
+				// LastAccess and Expires are written under the key's shard lock, so the janitor gets
+				// a copy taken under it. A busy entry is skipped, as it is when it comes to removing it.
+				lock := getLock(c.locks, key)
+				if !lock.TryLock() {
+					continue
+				}
+				meta := *entry.meta
+				lock.Unlock()
+				if !yield(key, &meta) {
 					break
 				}
 			}
@@ -139,9 +147,11 @@ func (c *MemoryCache[MetadataT]) Get(key CacheKey) (*Entry[MetadataT], error) {
 	entry.meta.LastAccess = time.Now()
 	metrics.Global.Cache.CacheHits.Increment()
 
+	// The caller reads the metadata after the shard lock is released: give it a snapshot, not the live object.
+	meta := *entry.meta
 	return &Entry[MetadataT]{
 		Data:     &memoryReadSeekCloser{bytes.NewReader(entry.data)},
-		Metadata: entry.meta,
+		Metadata: &meta,
 		Stale:    stale,
 	}, nil
 }
@@ -199,9 +209,10 @@ func (c *MemoryCache[MetadataT]) cacheInternal(key CacheKey, data io.Reader, exp
 	incrementCacheEntries()
 	addCacheSize(&c.byteSize, int64(count))
 
+	metaSnapshot := *meta // the stored object is shared from here on; the caller gets a snapshot
 	return &Entry[MetadataT]{
 		Data:     &memoryReadSeekCloser{bytes.NewReader(dataBytes)},
-		Metadata: meta,
+		Metadata: &metaSnapshot,
 	}, nil
 }
 
@@ -280,5 +291,6 @@ func (c *MemoryCache[MetadataT]) GetMetadata(key CacheKey) (meta *EntryMetadata[
 	entry.meta.LastAccess = time.Now()
 	metrics.Global.Cache.CacheHits.Increment()
 
-	return entry.meta, stale, nil
+	metaSnapshot := *entry.meta // a snapshot: the live object keeps changing under the shard lock
+	return &metaSnapshot, stale, nil
 }
